@@ -197,6 +197,16 @@ func c19Programs(thorough bool) []c19Prog {
 		out = append(out, c19Prog{Name: fmt.Sprintf("errors-called/%x", mask), Src: strings.Join(defs, "\n") + "\nfunction top() { " + strings.Join(cs, "; ") + " }\nBEGIN { top() }"})
 		out = append(out, c19Prog{Name: fmt.Sprintf("errors-called-rev/%x", mask), Src: "function top() { " + strings.Join(rev, "; ") + " }\n" + strings.Join(defs, "\n") + "\nfunction mid() { top(); " + cs[0] + " }\nBEGIN { mid() }"})
 	}
+	// several errors of a kind the parser itself collects in a map before reporting the first
+	for i, src := range []string{
+		"BEGIN {\n  x = (1,2)\n  y = (3,4)\n}",
+		"BEGIN {\n      x = (1,2)\n  y = (3,4)\n z = (5,6)\n}",
+		"BEGIN { x = (1,2)\n}\nEND { y = (3,4); z = (5,6) }",
+		"BEGIN {\n  x = (1,2); w = (7,8)\n    y = (3,4)\n v = (9,0)\n}",
+		"function f(a) {\n    return (a,1)\n}\nBEGIN {\n  x = (1,2)\n}",
+	} {
+		out = append(out, c19Prog{Name: fmt.Sprintf("errors-multiexpr/%d", i), Src: src})
+	}
 	valid := []string{
 		"function a(x) { return b(x) } function b(y) { return c(y) } function c(z) { z[1] = 1; return length(z) } BEGIN { print a(arr), arr[1] }",
 		"function a(x) { return b(x) + c(x) } function b(y) { return d(y) } function c(y) { return d(y) } function d(z) { z[\"k\"]++; return z[\"k\"] } BEGIN { print a(g); print g[\"k\"] }",
